@@ -364,7 +364,12 @@ impl ExprCompiled {
             ExprCompiled::List(xs) => xs.is_empty(),
             ExprCompiled::Tuple(xs) => xs.is_empty(),
             ExprCompiled::Dict(xs) => xs.is_empty(),
-            ExprCompiled::Value(v) if v.is_builtin() => v.to_value().length().is_ok_and(|l| l == 0),
+            ExprCompiled::Value(v) if v.is_builtin() => {
+                // A string has a length but is not iterable:
+                // iterating it must fail at run time, also when it is empty.
+                let v = v.to_value();
+                v.unpack_str().is_none() && v.length().is_ok_and(|l| l == 0)
+            }
             _ => false,
         }
     }
